@@ -352,7 +352,7 @@ def check_item(chk, item, seed, tier):
 def check_defined(chk, item, seed, tier):
     """Definedness obligations of every part on every path."""
     key, fam, mname, cname, cls, kws, nf, proc = item
-    tmo = 3000 if tier == "quick" else 6000
+    tmo = 3000 if tier == "quick" else 20000
     for order in range(4):
         with Ctx(seed, track_defined=True) as ctx:
 
@@ -535,7 +535,7 @@ def run(chk, only=None):
             except Exception as e:  # noqa
                 chk.inconclusive_note(f"{it[0]}: harness exception {e!r} {traceback.format_exc()[-300:]}")
     if only in (None, "defined") or (only and only.startswith("def:")):
-        ditems = [it for it in items if it[6] in (3, 6)] if tier == "thorough" else [it for it in items if it[6] == 3]
+        ditems = items if tier == "thorough" else [it for it in items if it[6] == 3]
         for it in ditems:
             if only and only.startswith("def:") and only[4:] not in it[0]:
                 continue
